@@ -238,6 +238,10 @@ class State(object):
     def assume(self, b):
         if b is True or (z3.is_bool(b) and z3.is_true(b)):
             return
+        if z3.is_and(b):          # conjuncts separately: the syntactic branch decision sees each of them
+            for c in b.children():
+                self.assume(c)
+            return
         self.pc.append(b)
 
 
@@ -521,6 +525,8 @@ class SpecEval(object):
             return VBool(z3.Implies(a, b))
         a = self.ev(n.left, e)
         b = self.ev(n.right, e)
+        if isinstance(a, VNone) or isinstance(b, VNone):
+            raise NoneDeref('spec: arithmetic on None')
         return binop(n.op, a, b, e.st)
 
     def ev_Compare(self, n, e):
@@ -528,6 +534,9 @@ class SpecEval(object):
         conj = []
         for op, rn in zip(n.ops, n.comparators):
             right = self.ev(rn, e)
+            if (isinstance(left, VNone) or isinstance(right, VNone)) and \
+                    isinstance(op, (ast.Lt, ast.LtE, ast.Gt, ast.GtE)):
+                raise NoneDeref('spec: ordering comparison with None')
             conj.append(compare(op, left, right, e.st))
             left = right
         return VBool(z3.And(conj) if len(conj) > 1 else conj[0])
